@@ -777,17 +777,190 @@ def mon_c17(ix: Index):  # noqa: C901, PLR0912
     return out
 
 
+# =============================================================================== C18
+def expected_checkpoint_raise(err: dict) -> bool:
+    """Classification pinned by the repository's own tests: 4xx except 429 and except 'Invalid Checkpoint Token' => raise."""
+    if err.get("kind") != "client":
+        return False
+    st = err.get("status", 500)
+    if not (400 <= st < 500) or st == 429:
+        return False
+    return not (err.get("code") == "InvalidParameterValueException" and str(err.get("message", "")).startswith("Invalid Checkpoint Token"))
+
+
+def mon_c18(ix: Index):  # noqa: C901, PLR0912
+    import json as _json
+
+    out = []
+    n = 0
+    sc = ix.r["scenario"]
+    expect = sc.get("expect")
+    ends = [e for e in ix.trace if e["kind"] == "inv_end_summary"]
+    for e in ends:
+        if e.get("killed") or e.get("died"):
+            continue
+        oc = e.get("outcome")
+        if oc is None:
+            continue
+        n += 1
+        if e.get("dex_alive"):
+            out.append(V("C18", "C18/handler-thread-alive-after-outcome", "threads %s alive after the wrapper finished" % e["dex_alive"], e["i"]))
+        if oc["kind"] == "return":
+            v = oc["value"]
+            if not isinstance(v, dict) or v.get("Status") not in ("SUCCEEDED", "FAILED", "PENDING"):
+                out.append(V("C18", "C18/malformed-outcome", "returned %r" % (str(v)[:100],), e["i"]))
+                continue
+            st = v["Status"]
+            er = e.get("exec_result")
+            if st == "SUCCEEDED":
+                if "Error" in v:
+                    out.append(V("C18", "C18/succeeded-with-error", str(v)[:120], e["i"]))
+                res = v.get("Result")
+                if res is None:
+                    out.append(V("C18", "C18/succeeded-without-result", str(v)[:120], e["i"]))
+                elif res == "":
+                    if not (er and er.get("action") == "SUCCEED"):
+                        out.append(V("C18", "C18/succeeded-empty-result-without-execution-record", "no EXECUTION SUCCEED applied", e["i"]))
+                else:
+                    try:
+                        _json.loads(res)
+                    except (TypeError, ValueError):
+                        out.append(V("C18", "C18/succeeded-result-not-json", str(res)[:80], e["i"]))
+            elif st == "FAILED":
+                if "Result" in v:
+                    out.append(V("C18", "C18/failed-with-result", str(v)[:120], e["i"]))
+                err = v.get("Error")
+                if err is None:
+                    if not (er and er.get("action") == "FAIL"):
+                        out.append(V("C18", "C18/failed-without-error-or-execution-record", str(v)[:120], e["i"]))
+                elif not isinstance(err, dict) or not (set(err) <= {"ErrorMessage", "ErrorType", "ErrorData", "StackTrace"}):
+                    out.append(V("C18", "C18/failed-error-object-malformed", str(err)[:120], e["i"]))
+            elif "Result" in v or "Error" in v:
+                out.append(V("C18", "C18/pending-with-payload", str(v)[:120], e["i"]))
+        else:
+            mro = oc.get("mro") or []
+            allowed = "InvocationError" in mro
+            if oc["cls"] == "CheckpointError" and oc.get("retriable") is False:
+                allowed = False
+            if sc.get("bad_event") is not None or sc.get("bad_input"):
+                allowed = allowed or oc["cls"] in ("ExecutionError", "DurableExecutionsError", "JSONDecodeError", "KeyError", "TypeError", "AttributeError", "ValueError")
+            if oc["cls"] in ("SystemExit", "KeyboardInterrupt"):
+                continue  # user code asked the interpreter to exit: outside the statement's "ordinary user exceptions", not judged
+            if not allowed:
+                out.append(V("C18", "C18/raised-for-non-retriable/%s" % oc["cls"], "wrapper raised %s: %s" % (oc["cls"], oc.get("msg", "")[:100]), e["i"]))
+    if ix.r.get("stop") == "hang":
+        h = next((x for x in ix.trace if x["kind"] == "hang"), {})
+        why = "base-exception-in-branch" if any(x["kind"] == "fn_exit" and str(x.get("outcome", "")).startswith("raise:") and x["outcome"].split(":")[1] in ("SystemExit", "KeyboardInterrupt", "BackgroundThreadError") and "/b" in x["path"] for x in ix.trace) else "other"
+        if h.get("verdict") == "hang":
+            out.append(V("C18", "C18/invocation-never-ends/%s" % why, "invocation hung: every thread parked, no API call in flight"))
+    if expect and ends:
+        # the expectation is about the invocation in which the behaviour occurs: the one hit by the injected fault,
+        # otherwise the first invocation that reaches the behaviour (the last one before any Lambda retry changes history)
+        fault_inv = next((e["inv"] for e in ix.trace if e["kind"] == "api" and e.get("fault")), None)
+        if fault_inv is not None:
+            last = next((e for e in ends if e["inv"] == fault_inv and e.get("outcome")), None)
+        elif expect["kind"] == "raise":
+            last = next((e for e in ends if e.get("outcome") and e["outcome"]["kind"] == "raise"), None) or next((e for e in reversed(ends) if e.get("outcome")), None)
+        else:
+            last = next((e for e in reversed(ends) if e.get("outcome")), None)
+        if sc.get("faults") and fault_inv is None:
+            last = None  # the fault never fired (call index beyond the program): nothing to classify
+        if last is not None and ix.r.get("stop") not in ("hang", "spin"):
+            oc = last["outcome"]
+            got_kind = "raise" if oc["kind"] == "raise" else (oc["value"].get("Status") if isinstance(oc["value"], dict) else "?")
+            if got_kind != expect["kind"]:
+                out.append(V("C18", "C18/misclassified/expected-%s-got-%s/%s" % (expect["kind"], got_kind, expect.get("why", "")),
+                             "expected %s, got %s (%s)" % (expect, got_kind, str(oc)[:160]), last["i"]))
+            elif expect["kind"] == "FAILED" and expect.get("etype"):
+                err = (oc["value"].get("Error") or (last.get("exec_result") or {}).get("error") or {})
+                if err.get("ErrorType") != expect["etype"]:
+                    out.append(V("C18", "C18/failed-with-wrong-error-type/%s" % expect.get("why", ""), "ErrorType %r, expected %r" % (err.get("ErrorType"), expect["etype"]), last["i"]))
+            elif expect["kind"] == "raise" and expect.get("cls") and oc["cls"] != expect["cls"]:
+                out.append(V("C18", "C18/raised-wrong-class/%s" % expect.get("why", ""), "raised %s expected %s" % (oc["cls"], expect["cls"]), last["i"]))
+    ix.r.setdefault("stats", {})["c18_outcomes"] = n
+    return out
+
+
+# =============================================================================== C06
+def mon_c06(ix: Index):  # noqa: C901, PLR0912
+    out = []
+    fail = next((e for e in ix.trace if e["kind"] == "api" and e.get("fault")), None)
+    if fail is None:
+        ix.r.setdefault("stats", {})["c06_failures"] = 0
+        return out
+    inv = fail["inv"]
+    evs = ix.by_inv.get(inv, [])
+    after = [e for e in evs if e["i"] > fail["i"]]
+    who = role_of(fail.get("t", ""))
+    ups = fail.get("updates") or []
+    shape = "empty-refresh" if not ups else ("branch" if any("/b" in (u.get("Name") or "") or (u.get("Name") or "").startswith(("parallel-branch", "map-item")) for u in ups) else "main")
+    ctx = "%s" % shape
+    for e in after:
+        if e["kind"] == "api" and not e.get("late"):
+            out.append(V("C06", "C06/api-call-after-failure/%s" % e.get("op"), "API call #%s issued after call #%s failed" % (e.get("n"), fail["n"]), e["i"]))
+            break
+    for e in after:
+        if e["kind"] == "ret" and e.get("phase") != "create" and e.get("st") not in TERMINAL:
+            out.append(V("C06", "C06/unrecorded-result-delivered-after-failure/%s" % e.get("opkind"), "%s returned a value, backend status %s" % (e["path"], e.get("st")), e["i"]))
+        elif e["kind"] == "exc" and _is_final_error(e) and (e.get("st") not in TERMINAL or e.get("st") == "SUCCEEDED"):
+            out.append(V("C06", "C06/unrecorded-error-delivered-after-failure/%s" % e.get("opkind"), "%s raised %s, backend status %s" % (e["path"], e["cls"], e.get("st")), e["i"]))
+        elif e["kind"] == "fn_enter" and e.get("fnkind") == "step":
+            node = ix.node_of(e["path"])
+            if node and node.get("sem") == "most" and e.get("st") != "STARTED":
+                out.append(V("C06", "C06/at-most-once-entered-without-start-after-failure", "%s entered with backend status %s" % (e["path"], e.get("st")), e["i"]))
+    end = next((x for x in evs if x["kind"] == "inv_end_summary"), None)
+    hang = next((x for x in evs if x["kind"] == "hang"), None)
+    spin = next((x for x in evs if x["kind"] == "spin"), None)
+    if hang is not None:
+        if hang.get("verdict") == "hang":
+            out.append(V("C06", "C06/hang-after-checkpoint-failure/%s" % ctx, "failing call #%s (%s, issued for %s updates): invocation never terminates; every thread parked" % (fail["n"], fail["fault"]["err"].get("code") or fail["fault"]["err"].get("cls"), shape), hang["i"]))
+    elif spin is not None:
+        out.append(V("C06", "C06/spin-after-checkpoint-failure/%s" % ctx, spin.get("why", ""), spin["i"]))
+    elif end is not None and end.get("outcome") is not None:
+        oc = end["outcome"]
+        want_raise = expected_checkpoint_raise(fail["fault"]["err"])
+        if oc["kind"] == "return":
+            st = oc["value"].get("Status") if isinstance(oc["value"], dict) else None
+            if st in ("SUCCEEDED", "PENDING"):
+                out.append(V("C06", "C06/%s-after-checkpoint-failure/%s" % (st.lower(), ctx), "invocation reported %s although API call #%s failed" % (st, fail["n"]), end["i"]))
+            elif st == "FAILED":
+                et = (oc["value"].get("Error") or {}).get("ErrorType")
+                if want_raise:
+                    out.append(V("C06", "C06/failed-instead-of-raise-for-retriable-error", "returned FAILED(%s) for %s" % (et, fail["fault"]["err"]), end["i"]))
+                elif et != "CheckpointError":
+                    out.append(V("C06", "C06/failed-with-wrong-error-type/%s" % et, "FAILED with ErrorType %s after checkpoint failure" % et, end["i"]))
+        else:
+            if not want_raise:
+                out.append(V("C06", "C06/raised-instead-of-failed-for-non-retriable-error/%s" % oc["cls"], "raised %s for %s" % (oc["cls"], fail["fault"]["err"]), end["i"]))
+            elif oc["cls"] != "CheckpointError":
+                out.append(V("C06", "C06/raised-wrong-class/%s" % oc["cls"], "raised %s" % oc["cls"], end["i"]))
+    ix.r.setdefault("stats", {})["c06_failures"] = 1
+    return out
+
+
+def role_of(t: str) -> str:
+    if t.startswith("dex-handler"):
+        return "main"
+    if t.startswith("ThreadPoolExecutor"):
+        return "pool"
+    if t.startswith("Thread-"):
+        return "timer"
+    return "other"
+
+
 MONITORS = {
     "C01": mon_c01,
     "C02": mon_c02,
     "C03": mon_c03,
     "C04": mon_c04,
+    "C06": mon_c06,
     "C08": mon_c08,
     "C11": mon_c11,
     "C12": mon_c12,
     "C13": mon_c13,
     "C14": mon_c14,
     "C17": mon_c17,
+    "C18": mon_c18,
 }
 
 
